@@ -11,6 +11,7 @@ import CBV.Lemmas.C14Sig
 import CBV.Lemmas.C14Renum
 import CBV.Lemmas.C14Box
 import CBV.Lemmas.C14Quad
+import CBV.Lemmas.C14Grid
 
 namespace CBV.C14
 open CBV
@@ -115,6 +116,53 @@ theorem T_C14_renumber (σ : List Nat) (hσ : σ ∈ rot24) (pts : List V3) (hle
 example : [1, 2, 3, 0, 5, 6, 7, 4] ∈ rot24 ∧
     (List.range 6).map (sidePerm CBV.Gen.hexSideIdx [1, 2, 3, 0, 5, 6, 7, 4]) = [0, 1, 4, 5, 3, 2] := by
   decide +kernel
+
+/-! ### whole grids: the neighbour centres are derived from the grid itself -/
+
+/-- Moving *all points of a grid* by a rigid motion leaves the signature (hence the quality) of every
+    hexahedral cell unchanged, the neighbour of each side being found by `_bind_cell_neighbours` as
+    modelled in `C15.cellNbrs` (which only looks at the addressing). -/
+theorem T_C14_rigid_grid (cells : List (List Nat)) (p : List V3) (ci : Nat) (hci : ci < cells.length)
+    (hg : GridOk ⟨C15.hexKind, cells, p.length⟩ p 8) (w : Rat) (a t : V3) (hN : w * w + V3.dot a a ≠ 0) :
+    sigOfCell ⟨C15.hexKind, cells, p.length⟩ (p.map (rigid w a t)) ci =
+      sigOfCell ⟨C15.hexKind, cells, p.length⟩ p ci := by
+  have hm := getD_mem_of_lt cells [] ci hci
+  have hc := hg.2 _ hm
+  unfold sigOfCell
+  simp only [C15.hexKind, show ((8 : Nat) == 4) = false by decide, Bool.false_eq_true, if_false]
+  rw [cellPts_map _ _ _ hc.2]
+  have hnb : (fun i => ((C15.cellNbrs ⟨C15.hexKind, cells, p.length⟩ ci).getD i none).map
+        (fun cj => avg (cellPts (p.map (rigid w a t)) (cells.getD cj [])))) =
+      fun i => (((C15.cellNbrs ⟨C15.hexKind, cells, p.length⟩ ci).getD i none).map
+        (fun cj => avg (cellPts p (cells.getD cj [])))).map (rigid w a t) := by
+    funext i; exact nb_rigid _ p 8 hg ci i w a t
+  simp only [C15.hexKind] at hnb
+  rw [hnb]
+  have hlen : (cellPts p (cells.getD ci [])).length = 8 := by
+    unfold cellPts; rw [List.length_map]; exact hc.1
+  exact sigHexWith_rigid _ _ _ _ w a t hN (by rw [hlen]; exact T_C14_tables.1)
+    (by intro h; rw [h] at hlen; simp at hlen)
+
+/-- the same for a uniform scaling of all grid points, on the scale-free signature -/
+theorem T_C14_scale_grid (cells : List (List Nat)) (p : List V3) (ci : Nat) (k : Rat) (hk : 0 < k) :
+    (sigOfCell ⟨C15.hexKind, cells, p.length⟩ (p.map (V3.smul k)) ci).norm =
+      (sigOfCell ⟨C15.hexKind, cells, p.length⟩ p ci).norm := by
+  unfold sigOfCell
+  simp only [C15.hexKind, show ((8 : Nat) == 4) = false by decide, Bool.false_eq_true, if_false]
+  rw [show cellPts (p.map (V3.smul k)) (cells.getD ci []) = (cellPts p (cells.getD ci [])).map (V3.smul k) from
+    map_pt_map_smul k p _]
+  have hnb : (fun i => ((C15.cellNbrs ⟨C15.hexKind, cells, p.length⟩ ci).getD i none).map
+        (fun cj => avg (cellPts (p.map (V3.smul k)) (cells.getD cj [])))) =
+      fun i => (((C15.cellNbrs ⟨C15.hexKind, cells, p.length⟩ ci).getD i none).map
+        (fun cj => avg (cellPts p (cells.getD cj [])))).map (V3.smul k) := by
+    funext i; exact nb_smul _ p ci i k
+  simp only [C15.hexKind] at hnb
+  rw [hnb]
+  exact sigHexWith_smul _ _ _ _ k hk (fun s hs => (T_C14_tables.1.1 s hs).1)
+
+/-- non-vacuity: two stacked unit cubes form a well-formed grid; the upper one is the top neighbour of the lower -/
+example : C15.cellNbrs ⟨C15.hexKind, [[0, 1, 2, 3, 4, 5, 6, 7], [4, 5, 6, 7, 8, 9, 10, 11]], 12⟩ 0
+    = [none, some 1, none, none, none, none] := by decide +kernel
 
 /-! ### rotational renumbering of a planar convex quadrilateral -/
 
